@@ -1735,3 +1735,30 @@ impl proto::Peer for Peer {
         Ok(response)
     }
 }
+
+// ===== verification hooks (feature `verif`) =====
+
+#[cfg(feature = "verif")]
+impl<T, B> Connection<T, B>
+where
+    B: Buf + 'static,
+{
+    #[doc(hidden)]
+    pub fn verif_probe(&self) -> crate::verif::VerifProbe {
+        self.inner.verif_probe()
+    }
+}
+
+#[cfg(feature = "verif")]
+impl Builder {
+    /// Same as the `unstable`-only `initial_stream_id`.
+    #[doc(hidden)]
+    pub fn verif_initial_stream_id(&mut self, stream_id: u32) -> &mut Self {
+        self.stream_id = stream_id.into();
+        assert!(
+            self.stream_id.is_client_initiated(),
+            "stream id must be odd"
+        );
+        self
+    }
+}
